@@ -27,7 +27,8 @@ vars == <<ns, tid, l, fails, njudged>>
 T  == Traces[tid]
 Ev == T.ev
 
-Fail(c, n, i, s) == [clause |-> c, ns |-> n, i |-> i, cls |-> InputClass(s)]
+Fail(c, n, i, s) == [clause |-> c, ns |-> n, i |-> i, cls |-> InputClass(s), why |-> ""]
+FailName(n, i, s, id) == [clause |-> NameClause(id), ns |-> n, i |-> i, cls |-> InputClass(s), why |-> InvalidWhy(id)]
 
 Init ==
   /\ tid \in 1..Len(Traces)
@@ -51,11 +52,11 @@ Step ==
                   /\ Force(e.ns, e.spec, e.ident)
                   /\ fails' = fails
                        \cup (IF NameClause(e.ident) # "ok"
-                               THEN {Fail(NameClause(e.ident), e.ns, l, e.spec)} ELSE {})
-                       \cup (IF /\ e.ident \in RangeOf(NsOf(e.ns))
-                                /\ ~(e.spec \in DOMAIN NsOf(e.ns) /\ NsOf(e.ns)[e.spec] = e.ident)
+                               THEN {FailName(e.ns, l, e.spec, e.ident)} ELSE {})
+                       \cup (IF /\ Norm(e.ident) \in RangeOf(NsOf(e.ns))
+                                /\ ~(e.spec \in DOMAIN NsOf(e.ns) /\ NsOf(e.ns)[e.spec] = Norm(e.ident))
                                THEN {Fail("C20.collision", e.ns, l, e.spec)} ELSE {})
-                       \cup (IF e.spec \in DOMAIN NsOf(e.ns) /\ NsOf(e.ns)[e.spec] # e.ident
+                       \cup (IF e.spec \in DOMAIN NsOf(e.ns) /\ NsOf(e.ns)[e.spec] # Norm(e.ident)
                                THEN {Fail("C20.unstable", e.ns, l, e.spec)} ELSE {})
 
 \* ---- end of trace: Total
